@@ -111,25 +111,32 @@ pub fn run_case(c: &Case, ctx: &mut Ctx) -> CaseResult {
     let mut dropped_any = false;
     let mut kept_any = false;
 
-    // remove_zero_rows
+    // remove_zero_rows: only rows may be dropped, the set must not change; effectiveness as far as
+    // the name goes: no row `0 <= 0` survives
     let r = must("remove_zero_rows", || p.remove_zero_rows())?;
     let kept = subsequence(&p, &r).ok_or_else(|| Failure::new("remove_zero_rows: result is not a subsequence of the input rows"))?;
-    let exp: Vec<usize> = (0..m).filter(|i| !(rows[*i].is_zero_row() && rows[*i].b.is_zero())).collect();
-    chk!(kept == exp, "remove_zero_rows kept rows {kept:?}, expected exactly the rows other than 0 <= 0: {exp:?}");
     same_set("remove_zero_rows", &pq, &kept, n)?;
+    if let Some(i) = kept.iter().find(|i| rows[**i].is_zero_row() && rows[**i].b.is_zero()) {
+        return Err(Failure::new(format!("remove_zero_rows kept the zero row {i}")));
+    }
 
-    // remove_tautologies
+    // remove_tautologies: an infeasible input MAY be replaced by the canonical empty polytope and an
+    // all-tautology input by the canonical unbounded one; otherwise subsequence + same set; effectiveness
+    // as documented ("removes row constraints which are always satisfied on their own")
     let r = must("remove_tautologies", || p.remove_tautologies())?;
     let has_false = rows.iter().any(|r| r.is_zero_row() && r.b.is_neg());
     let nontaut: Vec<usize> = (0..m).filter(|i| !rows[*i].is_zero_row()).collect();
-    if has_false {
-        chk!(is_canonical_empty(&r), "remove_tautologies: input contains an always-false row but the result is not the canonical empty polytope");
-    } else if nontaut.is_empty() {
-        chk!(is_canonical_unbounded(&r), "remove_tautologies: every row is a tautology but the result is not the canonical unbounded polytope");
+    if is_canonical_empty(&r) && (subsequence(&p, &r).is_none() || !exact_nonempty) {
+        chk!(!exact_nonempty, "remove_tautologies replaced a non-empty system by the canonical empty polytope");
+    } else if is_canonical_unbounded(&r) && (subsequence(&p, &r).is_none() || (nontaut.is_empty() && !has_false)) {
+        chk!(nontaut.is_empty() && !has_false, "remove_tautologies returned the canonical unbounded polytope although the input constrains the space");
     } else {
         let kept = subsequence(&p, &r).ok_or_else(|| Failure::new("remove_tautologies: result is not a subsequence of the input rows"))?;
-        chk!(kept == nontaut, "remove_tautologies kept {kept:?}, expected the non-zero rows {nontaut:?}");
         same_set("remove_tautologies", &pq, &kept, n)?;
+        if let Some(i) = kept.iter().find(|i| rows[**i].is_zero_row() && !rows[**i].b.is_neg()) {
+            // a tautology may only survive inside an infeasible system that is returned unchanged
+            chk!(has_false, "remove_tautologies kept the tautology row {i}");
+        }
         dropped_any |= kept.len() < m;
         kept_any |= !kept.is_empty();
     }
@@ -218,7 +225,11 @@ pub fn run_case(c: &Case, ctx: &mut Ctx) -> CaseResult {
                 }
                 Opt::Empty => {
                     // the rest is infeasible: the library should have returned the empty polytope
-                    if !exact_nonempty {
+                    // (demanded only when the rest is infeasible by a margin: a zero row 0 <= -2^-27, or
+                    // rows that miss each other by less than the solver tolerance, imply nothing "by a margin")
+                    let by_margin = lp::infeasible_by_margin(&others, n, &Q::from_f64(1e-6));
+                    ctx.class_if(!by_margin, "rest_infeasible_within_tolerance");
+                    if !exact_nonempty && by_margin {
                         // infeasible input: allowed representation is the canonical empty polytope
                         return Err(Failure::new("remove_redundant_row_constraints returned a non-canonical result for an infeasible system whose sub-system is infeasible"));
                     }
